@@ -42,3 +42,35 @@ Definition complete (n acq : Z) (kt : Z * Z) : bool := snd kt + n <=? acq.
 Definition epoch_item (X : ecfg) (es : list entry) (kt : Z * Z) : item :=
   {| i_key := pkey (x_K X) (fst kt) (snd kt); i_rid := fst kt; i_s0 := snd kt;
      i_data := map (x_val X) (epoch_of es (x_n X) (fst kt)); i_missed := false |}.
+
+(* ---------- what the harness compares (outputs mode) ---------- *)
+(* sample values: 0 = silence, 1 + key + 64 * idx = sample idx of stimulus key (key < 64) *)
+Definition val64 (s : osample) : Z := match s with OZero => 0 | OWave k i => 1 + k + 64 * i end.
+
+Definition enc_fout (o : fout) : list Z :=
+  match o with
+  | FErr EDuplicate => [1]
+  | FErr EStack => [2]
+  | FOut b _ =>
+    [0; zlen b] ++ flat_map (fun it => [i_rid it; i_s0 it; if i_missed it then 1 else 0; zlen (i_data it)]
+                                        ++ i_data it) b
+  end.
+
+(* [1; wf; fits; |P|; P...; #live; (k, t0)...; #sends; per send: enc_fout] or [0] when the queue raised.
+   wf = the schedule is one the theorems quantify over (wf_queue, minlen, waveforms not longer than the epoch,
+   wf_steps, all notifications handed over); fits = poststim_fits *)
+Definition c06_run (p : policy) (es : list entry) (ch : list Z) (pm : list (list Z))
+           (B n pre : Z) (steps : list step) : list Z :=
+  let X := {| x_val := val64; x_K := zlen es; x_n := n; x_pre := pre |} in
+  match run_steps all_rep X (cinit (qinit p es ch pm)) steps with
+  | None => [0]
+  | Some (st, fs) =>
+    let outs := run B (mkkind false false) fs in
+    [1;
+     if wf_queue p es && minlen es && forallb (fun e => e_len e <=? n) es && (pre =? 0)
+        && wf_steps all_rep (cinit (qinit p es ch pm)) steps && is_nil (s_notes st) then 1 else 0;
+     if poststim_fits es n (s_added st) (live_of (s_q st)) then 1 else 0;
+     zlen (s_P st)] ++ map val64 (s_P st)
+    ++ [zlen (live_of (s_q st))] ++ flat_map (fun kt => [fst kt; snd kt]) (live_of (s_q st))
+    ++ [zlen outs] ++ flat_map enc_fout outs
+  end.
